@@ -117,7 +117,7 @@ def parse_trace(tr):
         out.append(p)
     end = tail.split()[0].split('=')[1]
     pend = int(tail.split()[1].split('=')[1])
-    return out, F(end), pend
+    return out, (F(end) if end not in ('inf', 'nan') else float(end)), pend
 
 
 class Check(common.Check):
